@@ -88,7 +88,7 @@ pub fn run(r: &BpRun) -> BpOutcome {
         .env("VBP_DUMP", &dump)
         .current_dir(&d.app)
         .stdin(std::process::Stdio::null());
-    let out = cmd.output().expect("spawn vbp");
+    let out = cmd.output().expect("harness: spawn vbp");
     BpOutcome {
         code: out.status.code(),
         markers: std::fs::read_to_string(&markers).map(|s| s.lines().map(String::from).collect()).unwrap_or_default(),
